@@ -1199,39 +1199,84 @@ func ruleSliceStepZero(c *Ctx) *RuleResult {
 			r.viol("slice-calls-params", bad, fname(sl), "a success return of slice() is reachable without computing the slice parameters: a zero step would not be reported (e.g. for an empty array)")
 		}
 	}
-	// (2) computeSliceParams: test of parts[2].N == 0
+	// (2) the bounds computation (or a helper it calls) tests the step — the
+	// third slice parameter — against 0, and the zero edge only fails
 	r.Instances++
-	var zeroEdge *ssa.BasicBlock
-	for _, b := range cp.Blocks {
-		ifi := blockIf(b)
-		if ifi == nil {
-			continue
-		}
-		bo, ok := ifi.Cond.(*ssa.BinOp)
-		if !ok || bo.Op != token.EQL {
-			continue
-		}
-		if k, ok := constInt(bo.Y); !ok || k != 0 {
-			continue
-		}
-		if c.symStr(bo.X, 0) != "?" && strings.Contains(c.symStr(bo.X, 0), "N") {
-			zeroEdge = b.Succs[0]
-		}
-	}
-	if zeroEdge == nil {
-		r.viol("step-zero-test", c.pos(cp.Pos()), fname(cp), "no test of the step against 0")
-	} else {
-		okErr := true
-		for bb := range reachableFrom(zeroEdge, nil) {
-			if ret := blockReturn(bb); ret != nil && !neverNilError(c, retResults(ret)[1]) {
-				okErr = false
+	fns := []*ssa.Function{cp}
+	seenF := map[*ssa.Function]bool{cp: true}
+	for depth := 0; depth < 2; depth++ {
+		for _, f := range append([]*ssa.Function(nil), fns...) {
+			for _, b := range f.Blocks {
+				for _, in := range b.Instrs {
+					if call, ok := in.(*ssa.Call); ok {
+						if g := staticCallee(call); g != nil && g.Pkg == c.SLib && g.Blocks != nil && !seenF[g] {
+							seenF[g] = true
+							fns = append(fns, g)
+						}
+					}
+				}
 			}
 		}
-		if okErr && len(zeroEdge.Preds) == 1 {
-			r.ok("step-zero-test", c.pos(zeroEdge.Instrs[0].Pos()), fname(cp), "step == 0 leads only to returns with a fresh error")
-		} else {
-			r.viol("step-zero-test", c.pos(cp.Pos()), fname(cp), "the step == 0 edge can reach a success return")
+	}
+	found, okErr := false, false
+	var where *ssa.Function
+	pos0 := c.pos(cp.Pos())
+	for _, f := range fns {
+		errSlot := errIndex(f.Signature)
+		for _, b := range f.Blocks {
+			ifi := blockIf(b)
+			if ifi == nil {
+				continue
+			}
+			bo, ok := ifi.Cond.(*ssa.BinOp)
+			if !ok || (bo.Op != token.EQL && bo.Op != token.NEQ) {
+				continue
+			}
+			x, y := bo.X, bo.Y
+			if k, ok := constInt(x); ok && k == 0 {
+				x, y = y, x
+			}
+			if k, ok := constInt(y); !ok || k != 0 || !types.Identical(x.Type().Underlying(), types.Typ[types.Int]) {
+				continue
+			}
+			// the third slice parameter: an element [2] of the parameter list
+			if sx := c.symStr(x, 0); !strings.Contains(sx, "[2]") {
+				continue
+			}
+			found = true
+			where = f
+			zi := 0
+			if bo.Op == token.NEQ {
+				zi = 1
+			}
+			zeroEdge := b.Succs[zi]
+			pos0 = c.pos(ifi.Cond.Pos())
+			good := len(zeroEdge.Preds) == 1 && errSlot >= 0
+			if good {
+				for bb := range reachableFrom(zeroEdge, nil) {
+					if !zeroEdge.Dominates(bb) {
+						continue
+					}
+					if ret := blockReturn(bb); ret != nil && !neverNilError(c, retResults(ret)[errSlot]) {
+						// a named error result assigned a fresh error on this edge
+						if !dominatedByFreshErrorStore(c, retResults(ret)[errSlot], zeroEdge, bb) {
+							good = false
+						}
+					}
+				}
+			}
+			if good {
+				okErr = true
+			}
 		}
+	}
+	switch {
+	case !found:
+		r.viol("step-zero-test", c.pos(cp.Pos()), fname(cp), "no test of the step (third slice parameter) against 0")
+	case okErr:
+		r.ok("step-zero-test", pos0, fname(where), "step == 0 leads only to returns with a fresh error")
+	default:
+		r.viol("step-zero-test", pos0, fname(where), "the step == 0 edge can reach a success return")
 	}
 	return r
 }
@@ -1395,4 +1440,33 @@ func ruleSliceGrammar(c *Ctx) *RuleResult {
 		}
 	}
 	return r
+}
+
+// dominatedByFreshErrorStore: v is a phi/value that, on every path from edge
+// block S to block b, was last given an error that is non-nil by construction
+// (single-exit style: `err = errors.New(...)` then fall through to `return x, err`).
+func dominatedByFreshErrorStore(c *Ctx, v ssa.Value, S, b *ssa.BasicBlock) bool {
+	ph, ok := v.(*ssa.Phi)
+	if !ok {
+		return false
+	}
+	// every incoming edge of the phi that is reachable from S carries a fresh error
+	okAll, any := true, false
+	reach := reachableFrom(S, nil)
+	for i, pb := range ph.Block().Preds {
+		if !reach[pb] && pb != S {
+			continue
+		}
+		if !S.Dominates(pb) && pb != S {
+			continue
+		}
+		any = true
+		e := ph.Edges[i]
+		if !neverNilError(c, e) {
+			if inner, isPhi := e.(*ssa.Phi); !isPhi || !dominatedByFreshErrorStore(c, inner, S, pb) {
+				okAll = false
+			}
+		}
+	}
+	return any && okAll
 }
